@@ -5,3 +5,4 @@ import MdkVerif.Model.Leak
 import MdkVerif.GeneratedLeak
 import MdkVerif.Model.Codec
 import MdkVerif.Model.Tags
+import MdkVerif.Model.Media
